@@ -21,6 +21,9 @@ import (
 const (
 	peersDefaultPath = "peers"
 	peersVersion     = uint8(0)
+
+	// peerMinSerializeSize is the size of a serialized peer with an empty address.
+	peerMinSerializeSize = 12
 )
 
 type Peer struct {
@@ -184,6 +187,14 @@ func (repo *StoragePeerRepository) Load(ctx context.Context) error {
 		return errors.Wrap(err, "Failed to read peers count")
 	}
 
+	// The count is only a capacity hint. Don't trust it beyond what the remaining data can hold.
+	if maxCount := int32(buffer.Len() / peerMinSerializeSize); count > maxCount {
+		count = maxCount
+	}
+	if count < 0 {
+		count = 0
+	}
+
 	// Reset
 	repo.list = make(PeerList, 0, count)
 
@@ -263,10 +274,17 @@ func readPeer(r io.Reader, version uint8) (Peer, error) {
 		return result, err
 	}
 
-	addressData := make([]byte, addressSize)
-	_, err := io.ReadFull(r, addressData) // Read until string terminator
+	if addressSize < 0 {
+		return result, errors.New("Negative address size")
+	}
+
+	// Read through a limited reader so the declared size doesn't size the allocation.
+	addressData, err := io.ReadAll(io.LimitReader(r, int64(addressSize)))
 	if err != nil {
 		return result, err
+	}
+	if len(addressData) != int(addressSize) {
+		return result, io.ErrUnexpectedEOF
 	}
 	result.Address = string(addressData)
 
